@@ -22,6 +22,8 @@ func sqlDriver(args []string) error {
 		return sqlC03(args[1:])
 	case "c09":
 		return sqlC09(args[1:])
+	case "c11":
+		return sqlC11(args[1:])
 	}
 	return fmt.Errorf("unknown sql workload %s", args[0])
 }
